@@ -306,6 +306,30 @@ fn key_uniformity(env: &Env, desc: &Descriptor<DefiniteDescriptorKey>, key_ids: 
 
 fn hashes_of(env: &Env, text: &str) -> Vec<usize> { env.uni.hashes.iter().filter(|h| text.contains(&h.hex)).map(|h| h.id).collect() }
 
+/// Does a standard spend of input `i` exist from exactly what the PSBT input holds (R3 validated by
+/// R1)? None when R3 does not support the descriptor.
+pub fn ref_exists_std(w: &mut World, psbt: &Psbt, i: usize) -> Option<bool> {
+    let env = w.env.clone();
+    let desc = env.inputs[i].desc.clone();
+    let sat = WorldSat::from_psbt(&env.uni, &env.by_expr, psbt, i);
+    let world = ref_world(&sat, false);
+    let rr = ref_spends(&env, &desc, &sat, &world);
+    if rr.unsupported {
+        return None;
+    }
+    let tx = psbt.unsigned_tx.clone();
+    let mut order: Vec<usize> = (0..rr.spends.len()).collect();
+    order.sort_by_key(|k| (!rr.spends[*k].canonical, rr.spends[*k].wit.iter().map(|x| x.len()).sum::<usize>() + rr.spends[*k].ss.len()));
+    for k in order.iter().take(12) {
+        let s = &rr.spends[*k];
+        w.stats.oracle_calls += 1;
+        if exec_spend(w, &tx, i, &s.wit, &s.ss, Flags::STANDARD).is_ok() {
+            return Some(true);
+        }
+    }
+    Some(false)
+}
+
 pub fn check_reference(w: &mut World, actor: &str, psbt: &Psbt, i: usize, produced: &[Produced], ok: [bool; 6]) {
     let env = w.env.clone();
     let desc = env.inputs[i].desc.clone();
